@@ -250,6 +250,21 @@ func (p *Prog) resolveAliases() {
 		}))
 	}
 
+	// ---- the envelope interface: what Transport.Send takes
+	if trn := named("Transport"); trn != nil {
+		if it, ok := trn.Underlying().(*types.Interface); ok {
+			for i := 0; i < it.NumMethods(); i++ {
+				if m := it.Method(i); m.Name() == "Send" {
+					sig := m.Type().(*types.Signature)
+					if sig.Params().Len() == 2 {
+						if en, ok := sig.Params().At(1).Type().(*types.Named); ok && types.IsInterface(en) {
+							set("type:envelope", en.Obj().Name())
+						}
+					}
+				}
+			}
+		}
+	}
 	// ---- TCP transport
 	tr := named("Transport")
 	for _, n := range sc.Names() {
